@@ -136,21 +136,21 @@ func alphabetFor(sel string) []msg {
 // ---- world ----
 
 type world struct {
-	c       cfg
-	L       *shipx.Log
-	W       *shipx.Writer
-	P       *shipx.Provider
-	C       *ship.ShipConnection
-	inbox   [][]byte
-	busy    bool
-	reported bool
-	trustLog []string
-	dataIn  []string // payloads of accepted data frames in arrival order
-	dataIDs []string
-	spawnGen map[int]uint64
-	mon     *shipx.TimerMonitor
+	c                                                cfg
+	L                                                *shipx.Log
+	W                                                *shipx.Writer
+	P                                                *shipx.Provider
+	C                                                *ship.ShipConnection
+	inbox                                            [][]byte
+	busy                                             bool
+	reported                                         bool
+	trustLog                                         []string
+	dataIn                                           []string // payloads of accepted data frames in arrival order
+	dataIDs                                          []string
+	spawnGen                                         map[int]uint64
+	mon                                              *shipx.TimerMonitor
 	approveCalls, cancelCalls, closeCalls, appWrites int
-	delivered map[string]int
+	delivered                                        map[string]int
 }
 
 func newWorld(c cfg) *world {
@@ -833,14 +833,100 @@ func models(r *hx.Run) []hx.GModel {
 	return out
 }
 
+// ---- S part (C01, C04): two user operations on one pending request at the same time ----
+
+// userRaceBody: server role, untrusted peer, the request is pending; ops (approve / cancel / close) are issued
+// from threads of their own; afterwards the peer plays the rest of a cooperative handshake, ignoring whatever
+// the connection sent (an abort included). The usual monitors judge the whole log.
+func userRaceBody(ops []string, allow bool) func() {
+	c := cfg{server: true, trust: "none", allow: allow, alpha: "core", userOps: true}
+	alpha := map[string]msg{}
+	for _, m := range alphabetFor("core") {
+		alpha[m.id] = m
+	}
+	return func() {
+		w := newWorld(c)
+		w.C.Run()
+		simrt.Quiesce()
+		hist := []string{"D:init", "D:helloReady"}
+		for _, ev := range hist {
+			w.apply(ev, alpha)
+		}
+		simrt.Mark()
+		for i, op := range ops {
+			op := op
+			simrt.Go(fmt.Sprintf("user%d-%s", i, op), func() {
+				switch op {
+				case "approve":
+					// the approval is given when the call is made
+					w.P.Paired = true
+					w.L.Evs = append(w.L.Evs, shipx.Ev{T: simrt.Elapsed(), Kind: "trust", Arg: "on"})
+					w.C.ApprovePendingHandshake()
+				case "cancel":
+					// a cancel has taken effect when the call returns
+					w.C.AbortPendingHandshake()
+					w.P.Paired = false
+					w.L.Evs = append(w.L.Evs, shipx.Ev{T: simrt.Elapsed(), Kind: "trust", Arg: "off"})
+				case "close":
+					w.C.CloseConnection(false, 4001, "x")
+				}
+			})
+		}
+		simrt.Quiesce()
+		simrt.Unmark()
+		rest := []string{"D:helloReady", "D:protAnnounce", "D:protSelect", "D:pinNone", "D:accReq", "D:accA", "D:data1"}
+		for _, ev := range rest {
+			if w.W.Closed {
+				break // peers cannot deliver anything after the transport was closed
+			}
+			w.apply(ev, alpha)
+		}
+		simrt.RunFor(70 * time.Second)
+		w.monitors(append(hist, strings.Join(ops, "||")), 0, 0)
+		simrt.Outcome(shipx.StateName(w.state()))
+	}
+}
+
+func userRaceScenarios(r *hx.Run) []hx.Scenario {
+	var out []hx.Scenario
+	pb := 1
+	if r.Thorough() {
+		pb = 2
+	}
+	for _, ops := range [][]string{{"approve", "cancel"}, {"approve", "approve"}, {"cancel", "cancel"}, {"approve", "close"}, {"cancel", "close"}, {"approve", "cancel", "approve"}} {
+		if len(ops) == 3 && !r.Thorough() {
+			continue
+		}
+		out = append(out, hx.Scenario{Name: "userrace:" + strings.Join(ops, "+"), Body: userRaceBody(ops, true), Bounds: simrt.B(pb, 0, 0),
+			Cfg: simrt.Config{MaxSteps: 200000, BranchAfterMark: true, BranchOnly: []string{"user"}}})
+	}
+	return out
+}
+
 func main() {
 	r := hx.Init("")
 	r.ID = *prop
 	r.ReloadKnown()
 	ms := models(r)
+	withS := *prop == "C01" || *prop == "C04"
 	if r.Worker {
+		if hx.WorkerMode() == "s" {
+			hx.SWorker(userRaceScenarios(r))
+			return
+		}
 		hx.GWorker(ms)
 		return
+	}
+	if r.ReplayIn != "" && withS {
+		var art struct {
+			Replay struct {
+				Scenario string `json:"scenario"`
+			} `json:"replay"`
+		}
+		hx.ReadJSON(r.ReplayIn, &art)
+		if art.Replay.Scenario != "" {
+			hx.MaybeReplay(r, userRaceScenarios(r))
+		}
 	}
 	hx.GMaybeReplay(r, ms)
 	sum := hx.GExploreAll(r, ms)
@@ -864,6 +950,23 @@ func main() {
 	}
 	viol := hx.GConfirm(sum, ms)
 	cov := sum.Coverage()
+	if withS {
+		r.EnsureBudget(40 * time.Second)
+		hx.SetWorkerMode("s")
+		scens := userRaceScenarios(r)
+		ss := hx.ExploreAll(r, scens, false, 0)
+		for k := range ss.Found {
+			if !(strings.HasPrefix(k, *prop+"|") || hx.KeptKey(k)) {
+				delete(ss.Found, k)
+			}
+		}
+		viol = append(viol, hx.ConfirmViolations(ss, scens)...)
+		sc := ss.Coverage()
+		cov["user_race_scenarios"] = len(scens)
+		cov["user_race_executions"] = sc["executions"]
+		cov["user_race_completed_bound"] = sc["completed_deviation_bound"]
+		cov["exhaustive"] = cov["exhaustive"].(bool) && sc["exhaustive"].(bool)
+	}
 	if *prop == "C08" {
 		cov["probe_inputs"] = len(probes())
 		cov["probe_states"] = len(sum.Reps)
